@@ -9,7 +9,8 @@ ID = 'C04'
 LEVEL = 'model_checking'
 RULE = (
     'S-family composites of 2-3 processes and 0-3 steps of one dependency '
-    'layer with commuting updates (token collect, accumulate, set on '
+    'layer (plus two 2-step chains, and a layer with a structural step '
+    'observed through glob ports) with commuting updates (token collect, accumulate, set on '
     'pairwise distinct variables) x EVERY permutation of the insertion '
     'order of the processes dict and the steps dict x {port order, '
     'initial-state key order} normal/reversed x timestep assignments x '
@@ -47,21 +48,50 @@ def world(tss, n_steps, script, perm_p, perm_s, rev_ports, rev_state):
         procs[pid] = spec
         topo_p[pid] = ports
     steps, flow, topo_s = {}, {}, {}
-    for k in range(n_steps):
+    layout = n_steps
+    if layout == 'chains':
+        # two independent chains st0 -> st2 and st1 -> st3: generations
+        # {st0, st1} and {st2, st3}
+        step_ids, deps = [0, 1, 2, 3], {2: [0], 3: [1]}
+    elif layout == 'chains2':
+        # same, but named so that a chain's tail sorts before the other
+        # chain's head: st0 -> st1 and st2 -> st3
+        step_ids, deps = [0, 1, 2, 3], {1: [0], 3: [2]}
+    elif layout == 'recruit':
+        # st0 adds a child under 'kids' in its 2nd run; st1 is ordinary
+        step_ids, deps = [0, 1], {}
+    else:
+        step_ids, deps = list(range(layout)), {}
+    for k in step_ids:
         sid = f'st{k}'
         steps[sid] = {
             'cls': 'S', 'pid': sid, 'log_snapshot': True,
             'schema': {'shared': {'num': dict(sched.NUM)},
-                       'derived': {f'copy{k}': {
+                       'derived': {f'copy{j}': {
                            '_default': -1, '_updater': 'set',
-                           '_emit': True}}},
+                           '_emit': True} for j in step_ids}},
             'update': {'derived': {f'copy{k}': {
                 '$state': ('shared', 'num')}}}}
-        flow[sid] = []
+        flow[sid] = [(f'st{d}',) for d in deps.get(k, [])]
         ports = {'shared': ('shared',), 'derived': ('derived',)}
+        if layout == 'recruit' and k == 0:
+            steps[sid]['schema']['kids'] = {'*': {'v': {
+                '_default': 0, '_emit': True}}}
+            steps[sid]['update'] = {'$n': {1: {
+                'derived': {'copy0': {'$state': ('shared', 'num')}},
+                'kids': {'_add': [{'key': 'k1', 'state': {'v': 5}}]}}},
+                '$else': {'derived': {'copy0': {
+                    '$state': ('shared', 'num')}}}}
+            ports['kids'] = ('kids',)
         if rev_ports:
             ports = dict(reversed(list(ports.items())))
         topo_s[sid] = ports
+    if layout == 'recruit':
+        for pid, spec in procs.items():
+            spec['schema']['kids'] = {'*': {'v': {
+                '_default': 0, '_emit': True}}}
+            topo_p[pid] = dict(topo_p[pid], kids=('kids',))
+    perm_s = [step_ids[i] for i in perm_s]
     p_order = [f'p{i}' for i in perm_p]
     s_order = [f'st{k}' for k in perm_s]
     processes = {k: procs[k] for k in p_order}
@@ -72,6 +102,8 @@ def world(tss, n_steps, script, perm_p, perm_s, rev_ports, rev_state):
     for k in names:
         topology[k] = topo_p.get(k) or topo_s.get(k)
     state = {'shared': {'num': 0, 'tok': ()}}
+    if layout == 'recruit':
+        state['kids'] = {'k0': {'v': 1}}
     for i in range(len(tss)):
         state[f's{i}'] = {'num': 0}
     if rev_state:
@@ -80,7 +112,10 @@ def world(tss, n_steps, script, perm_p, perm_s, rev_ports, rev_state):
             'topology': topology, 'state': state, 'script': list(script),
             'family': 'O', 'procs': [(ts, 'always') for ts in tss],
             'perm': (tuple(perm_p), tuple(perm_s), rev_ports, rev_state),
-            'tss': tuple(tss), 'n_steps': n_steps}
+            'tss': tuple(tss), 'n_steps': n_steps,
+            'step_ids': step_ids,
+            'generation': {f'st{k}': (1 if k in deps else 0)
+                           for k in step_ids}}
 
 
 def canon_rows(ex):
@@ -131,12 +166,21 @@ def check_one(spec, ex):
                   f'{pid} invoked at t={t} sees shared.num='
                   f'{snap["shared"]["num"]} but {n_due} updates were due')
                 return out
-            for kk in range(spec['n_steps']):
+            for kk in spec['step_ids']:
                 if snap['derived'][f'copy{kk}'] != snap['shared']['num']:
                     V('C04.committed', 'step-phase-incomplete-at-invocation',
                       f'{pid} invoked at t={t}: derived.copy{kk}='
                       f'{snap["derived"][f"copy{kk}"]} shared.num='
                       f'{snap["shared"]["num"]}')
+                    return out
+            if 'kids' in snap:
+                view = _view_of(ex.trace, idx)
+                if view is not None and sorted(view.get('kids', {})) != \
+                        sorted(snap['kids']):
+                    V('C04.committed', 'stale-view-of-committed-state',
+                      f'{pid} invoked at t={t} is shown kids '
+                      f'{sorted(view.get("kids", {}))} but the committed '
+                      f'state holds {sorted(snap["kids"])}')
                     return out
             if last_proc is not None and last_proc[0] == t:
                 if not last_proc[3]:
@@ -151,20 +195,31 @@ def check_one(spec, ex):
                       f'see different hierarchy states')
                     return out
             last_proc = (t, sj, idx, True, pid)
-    # (iii) steps of the single layer see identical snapshots per phase
-    phase = []
+    # (iii) steps of one generation see identical snapshots in a phase
+    phase = {}
     for ev in ex.trace + [('end',)]:
         if ev[0] == 'snap' and ev[2].startswith('st'):
-            phase.append(fw.jdump(_norm_snapshot(ev[5])))
+            phase.setdefault(spec['generation'][ev[2]], []).append(
+                (ev[2], fw.jdump(_norm_snapshot(ev[5]))))
         elif ev[0] in ('invoke', 'return', 'cond'):
             continue
         else:
-            if len(set(phase)) > 1:
-                V('C04.snapshot', 'layer-steps-see-different-state',
-                  'steps of one layer saw different hierarchy states')
-                return out
-            phase = []
+            for g, members in phase.items():
+                if len({sj for _, sj in members}) > 1:
+                    V('C04.snapshot', 'layer-steps-see-different-state',
+                      f'steps {[m for m, _ in members]} of dependency '
+                      f'layer {g} saw different hierarchy states')
+                    return out
+            phase = {}
     return out
+
+
+def _view_of(trace, snap_idx):
+    """states argument of the invoke event that follows a snap event."""
+    for ev in trace[snap_idx + 1:snap_idx + 3]:
+        if ev[0] == 'invoke':
+            return ev[6]
+    return None
 
 
 def _norm_snapshot(snap):
@@ -178,6 +233,7 @@ def _norm_snapshot(snap):
 
 
 def perms(n_p, n_s):
+    n_s = {'chains': 4, 'chains2': 4, 'recruit': 2}.get(n_s, n_s)
     for pp in itertools.permutations(range(n_p)):
         for ps in itertools.permutations(range(n_s)):
             for rev_ports in (False, True):
@@ -228,6 +284,13 @@ def jobs(ctx):
             for n_steps in ((0, 1, 2) if ctx.quick else (0, 1, 2, 3)):
                 for sc in scripts:
                     out.append((tss, n_steps, sc))
+        # layered / structural step layouts on a reduced grid
+        for tss in combos[::5] if ctx.quick else combos:
+            if n == 3 and ctx.quick:
+                continue
+            for layout in ('chains', 'chains2', 'recruit'):
+                for sc in scripts[:2] if ctx.quick else scripts:
+                    out.append((tss, layout, sc))
     return out
 
 
